@@ -717,7 +717,7 @@ func Main() {
 			run.Violation("C09/cpu-budget", fmt.Sprintf("%.1f CPU seconds for a %d-byte input, budget %.0f s (%s %s)", o.cpu, len(data), b, c.Kind, c.Note), c)
 		}
 		if lim := uint64(allocFixed + allocPerB*len(data)); o.alloc > lim {
-			run.Violation("C09/alloc-budget", fmt.Sprintf("%d MiB allocated for a %d-byte input, budget %d MiB (%s %s)", o.alloc>>20, len(data), lim>>20, c.Kind, c.Note), c)
+			run.Violation("C09/alloc-budget"+editedTable(c), fmt.Sprintf("%d MiB allocated for a %d-byte input, budget %d MiB (%s %s)", o.alloc>>20, len(data), lim>>20, c.Kind, c.Note), c)
 		}
 		switch {
 		case !o.opened:
@@ -830,6 +830,23 @@ func Main() {
 }
 
 func containerOf(b []byte) string { return parseLayout(b).kind }
+
+// editedTable names the table the first edit of the case falls in ("/GSUB"), "" when
+// the case does not edit table contents.
+func editedTable(c *Case) string {
+	f := corpus.ByID(c.File)
+	if f == nil || len(c.Edits) == 0 {
+		return ""
+	}
+	lay := parseLayout(f.Bytes())
+	o := c.Edits[len(c.Edits)-1].Off
+	for _, t := range lay.tables {
+		if o >= t.off && o < t.off+t.length {
+			return "/" + strings.TrimSpace(tagStr(t.tag))
+		}
+	}
+	return ""
+}
 
 // ---- tag-driven systematic stream and recursion mutants
 
